@@ -13,21 +13,37 @@ open Iface C07L
 
 /-- reachable states of the repaired code -/
 def Reachable (s : St) : Prop :=
-  ∃ types vtyp vars0 ops, (∀ v, ∃ x, vars0 v = Words.val x) ∧ (∀ op ∈ ops, op.builderApi = true)
-    ∧ run Cfg.fixed (St.init types vtyp vars0) ops = some s
+  ∃ types vtyp vars0 sigs ops, (∀ v, ∃ x, vars0 v = Words.val x) ∧ (∀ op ∈ ops, op.builderApi = true)
+    ∧ run Cfg.fixed (St.init types vtyp vars0 sigs) ops = some s
 
 theorem reachable_inv {s : St} (h : Reachable s) : Inv Cfg.fixed s := by
-  obtain ⟨types, vtyp, vars0, ops, hv, hapi, hr⟩ := h
-  exact inv_run Cfg.fixed ops _ s (inv_init Cfg.fixed types vtyp vars0 hv) hapi hr
+  obtain ⟨types, vtyp, vars0, sigs, ops, hv, hapi, hr⟩ := h
+  exact inv_run Cfg.fixed ops _ s (inv_init Cfg.fixed types vtyp vars0 sigs hv) hapi hr
 
-/-- **slot = index in the type's method set.**  `methodIndexOf` (the slot goom writes) is the position at which a compiled
-    call finds the method: `typ.Method(methodIndexOf typ m).Name = m`, it is the first such position, and it equals
-    `List.idxOf`, for every method set and every method in it (exported or not, any position). -/
-theorem slot_is_type_index (ms : List String) (m : String) (h : m ∈ ms) :
+/-- **slot = index in the type's method set — full statement** (kept visible; FALSE for the code as it is, finding F27: an
+    embedded interface of another package can bring an unexported method with the same *name* as an own method, and
+    `methodIndexOf` compares names only, see `Findings/C07F.lean`). -/
+def SlotIsTypeIndex : Prop :=
+  ∀ (ms : List String) (m : String), m ∈ ms → ms[methodIndexOf ms m]? = some m
+
+/-- **slot = index in the type's method set** for every method whose name is not shadowed (`NoShadow`: no other member of
+    the method set has the same name — always true unless a foreign unexported method of the same name is embedded):
+    `typ.Method(methodIndexOf typ m)` is `m`, it is the first such position, and it equals `List.idxOf` — for every method
+    set, exported or not, any position. -/
+theorem slot_is_type_index_partial (ms : List String) (m : String) (h : m ∈ ms) (hns : NoShadow ms m) :
     ms[methodIndexOf ms m]? = some m ∧ (∀ j < methodIndexOf ms m, ms[j]? ≠ some m) ∧ methodIndexOf ms m = ms.idxOf m := by
-  obtain ⟨j, h1, h2, h3⟩ := methodIndexFrom_spec ms m 0 h
+  obtain ⟨j, h1, h2, h3⟩ := methodIndexFrom_spec ms m 0 h hns
   have e : methodIndexOf ms m = j := by simp [methodIndexOf, h1]
-  refine ⟨by rw [e]; exact h2, by rw [e]; exact h3, methodIndexOf_eq_idxOf ms m h⟩
+  refine ⟨by rw [e]; exact h2, by rw [e]; exact h3, methodIndexOf_eq_idxOf ms m h hns⟩
+
+/-- `NoShadow` holds for every method of a set whose names are pairwise different (the usual case) -/
+theorem noShadow_of_unique_names (ms : List String) (m : String) (hm : m ∈ ms)
+    (huniq : ∀ x ∈ ms, ∀ y ∈ ms, baseName x = baseName y → x = y) (hb : baseName m = m) : NoShadow ms m := by
+  intro x hx
+  constructor
+  · intro e
+    exact (huniq x hx m hm (by rw [hb, ← e])).symm
+  · intro e; rw [← e, hb]
 
 example : methodIndexOf (sortMeths ["b", "Zed", "Abc", "_x"]) "_x" = 2 := by decide
 
@@ -37,15 +53,15 @@ example : methodIndexOf (sortMeths ["b", "Zed", "Abc", "_x"]) "_x" = 2 := by dec
     (`Res.cb k` = the user's closure runs on the caller's arguments; `Res.ret k` = the stubbed value; a `When(a)` stub answers
     only for argument `a`). -/
 theorem dispatch_mocked (s s' : St) (hr : Reachable s) (b v : Nat) (m : String) (kind : Kind)
-    (fits : Bool)
-    (hs : step Cfg.fixed s (.mock b v m kind fits) = some (s', .ok)) (x : Nat) :
+    (csig : Nat) (hns : NoShadow (s.types (s.vtyp v)) m)
+    (hs : step Cfg.fixed s (.mock b v m kind csig) = some (s', .ok)) (x : Nat) :
     (∃ f c, s'.vars v = .fake f c) ∧
     call s' v m x = (match kind with
       | .ap => .cb s.ncb
       | .rt => .ret s.ncb
       | .wn a => if x = a then .ret s.ncb else .panic "nomatch") := by
   obtain ⟨f, c, g, i, h1, h2, h3, h4, h5, h6, h7, h8, h9⟩ :=
-    mock_dispatch Cfg.fixed rfl s s' b v m kind fits (reachable_inv hr) hs
+    mock_dispatch Cfg.fixed rfl s s' b v m kind csig (reachable_inv hr) hns hs
   refine ⟨⟨f, c, h1⟩, ?_⟩
   simp only [call, h1, h2, h3, h5, upd_same, h7]
   cases kind with
@@ -59,8 +75,8 @@ theorem dispatch_mocked (s s' : St) (hr : Reachable s) (b v : Nat) (m : String) 
       simp [e, this]
 
 /-- the hypotheses are satisfiable: a successful `When` mock of an unexported method in a three-method interface -/
-example : (step Cfg.fixed (St.init (fun _ => sortMeths ["b", "Zed", "Abc"]) (fun _ => 0) (fun _ => .val 0))
-    (.mock 0 1 "b" (.wn 9) true)).map (·.2) = some .ok := by decide
+example : (step Cfg.fixed (St.init (fun _ => sortMeths ["b", "Zed", "Abc"]) (fun _ => 0) (fun _ => .val 0) (fun _ => [0, 0, 0]))
+    (.mock 0 1 "b" (.wn 9) 0)).map (·.2) = some .ok := by decide
 
 theorem idxOf_inj (ms : List String) (a b : String) (ha : a ∈ ms) (h : ms.idxOf a = ms.idxOf b) : a = b := by
   induction ms with
@@ -91,13 +107,13 @@ theorem idxOf_inj (ms : List String) (a b : String) (ha : a ∈ ms) (h : ms.idxO
     mocker's context the itab is fresh and calling `m'` panics with the not-implemented message; otherwise the itab is the
     one the context already had and `m'` keeps exactly the slot it had — so, by induction over the history, each method's slot
     is its own latest replacement or `notImplement`. -/
-theorem dispatch_frame (s s' : St) (hr : Reachable s) (b v : Nat) (m m' : String) (kind : Kind) (fits : Bool)
-    (hs : step Cfg.fixed s (.mock b v m kind fits) = some (s', .ok)) (hm' : m' ∈ s.types (s.vtyp v)) (hne : m' ≠ m) (x : Nat) :
+theorem dispatch_frame (s s' : St) (hr : Reachable s) (b v : Nat) (m m' : String) (kind : Kind) (csig : Nat)
+    (hns : NoShadow (s.types (s.vtyp v)) m) (hs : step Cfg.fixed s (.mock b v m kind csig) = some (s', .ok)) (hm' : m' ∈ s.types (s.vtyp v)) (hne : m' ≠ m) (x : Nat) :
     ∃ f c, s'.vars v = .fake f c ∧
       ((f = s.nfake ∧ call s' v m' x = .panic "notimpl") ∨
        (f < s.nfake ∧ (s'.fakes f).fn ((s.types (s.vtyp v)).idxOf m') = (s.fakes f).fn ((s.types (s.vtyp v)).idxOf m'))) := by
   obtain ⟨f, c, g, i, h1, h2, h3, h4, h5, h6, h7, h8, h9⟩ :=
-    mock_dispatch Cfg.fixed rfl s s' b v m kind fits (reachable_inv hr) hs
+    mock_dispatch Cfg.fixed rfl s s' b v m kind csig (reachable_inv hr) hns hs
   have hidx : (s.types (s.vtyp v)).idxOf m' ≠ (s.types (s.vtyp v)).idxOf m :=
     fun h => hne (idxOf_inj _ _ _ hm' h)
   refine ⟨f, c, h1, ?_⟩
@@ -108,7 +124,7 @@ theorem dispatch_frame (s s' : St) (hr : Reachable s) (b v : Nat) (m m' : String
   · right
     exact ⟨e1, by rw [h5, upd_other _ _ _ _ hidx, e2]⟩
 
-/-- **unmocked ⇒ panics**: a slot that still holds `notImplement` makes the call panic with the not-implemented class. -/
+/-- (definitional: one arm of `call`) **unmocked ⇒ panics**: a slot that still holds `notImplement` makes the call panic with the not-implemented class. -/
 theorem unmocked_panics (s : St) (v f c : Nat) (m : String) (x : Nat) (hv : s.vars v = .fake f c)
     (hslot : (s.fakes f).fn ((s.types (s.vtyp v)).idxOf m) = .notImpl) : call s v m x = .panic "notimpl" := by
   simp only [call, hv, hslot]
@@ -116,27 +132,31 @@ theorem unmocked_panics (s : St) (v f c : Nat) (m : String) (x : Nat) (hv : s.va
 /-- **different variables are mocked independently.**  In every reachable state, whatever `b.Interface(&v).Method(m)…`
     does (success or panic), every other variable `w` — of the same interface type or not — keeps its two words and the
     function table it dispatches through. -/
-theorem vars_independent (s s' : St) (hr : Reachable s) (b v : Nat) (m : String) (kind : Kind) (fits : Bool) (st : Status)
-    (hs : step Cfg.fixed s (.mock b v m kind fits) = some (s', st)) (w : Nat) (hw : w ≠ v) :
+theorem vars_independent (s s' : St) (hr : Reachable s) (b v : Nat) (m : String) (kind : Kind) (csig : Nat) (st : Status)
+    (hs : step Cfg.fixed s (.mock b v m kind csig) = some (s', st)) (w : Nat) (hw : w ≠ v) :
     s'.vars w = s.vars w ∧ ∀ f c, s.vars w = .fake f c → s'.fakes f = s.fakes f :=
-  mock_other_vars Cfg.fixed rfl s s' b v m kind fits st (reachable_inv hr) hs w hw
+  mock_other_vars Cfg.fixed rfl s s' b v m kind csig st (reachable_inv hr) hs w hw
 
 /-- **a rejected mock changes nothing a caller can see.**  If the callback's signature does not fit the method
     (`proxy.Interface` returns an error), the call panics and no variable, fake interface or context (hence no backup,
     no canceled flag) changes — for the mocked variable too. -/
-theorem rejected_mock_changes_nothing (s s' : St) (hr : Reachable s) (b v : Nat) (m : String) (kind : Kind) (st : Status)
-    (hs : step Cfg.fixed s (.mock b v m kind false) = some (s', st)) :
+theorem rejected_mock_changes_nothing (s s' : St) (hr : Reachable s) (b v : Nat) (m : String) (kind : Kind) (csig : Nat)
+    (st : Status) (hrej : sigFits s (s.vtyp v) m csig = false)
+    (hs : step Cfg.fixed s (.mock b v m kind csig) = some (s', st)) :
     (∃ c, st = .panic c) ∧ s'.vars = s.vars ∧ s'.fakes = s.fakes := by
   cases st with
   | ok =>
-    obtain ⟨_, _, _, _, _, _, _, _, _, _, _, _, _, _, _, _, _, hfit⟩ := mockStep_ok Cfg.fixed s s' b v m kind false (reachable_inv hr) hs
+    obtain ⟨s2, _, j, _, hI2, hj, _, hvar, _, _, _, _, _, e5, _, _, _, hfit⟩ :=
+      mockStep_ok Cfg.fixed s s' b v m kind csig (reachable_inv hr) hs
+    have htyp : (s2.cms j).typ = s.vtyp v := by rw [(hI2.e j hj).2, hvar rfl, e5]
+    rw [htyp, hrej] at hfit
     cases hfit
   | panic c =>
-    obtain ⟨_, h1, h2⟩ := mockStep_panic Cfg.fixed s s' b v m kind false c (reachable_inv hr) hs
+    obtain ⟨_, h1, h2⟩ := mockStep_panic Cfg.fixed s s' b v m kind csig c (reachable_inv hr) hs
     exact ⟨⟨c, rfl⟩, h1, h2⟩
 
-example : (step Cfg.fixed (St.init (fun _ => sortMeths ["b", "Zed"]) (fun _ => 0) (fun _ => .val 0))
-    (.mock 0 1 "b" .ap false)).map (·.2) = some (.panic "applyerr") := by decide
+example : (step Cfg.fixed (St.init (fun _ => sortMeths ["b", "Zed"]) (fun _ => 0) (fun _ => .val 0) (fun _ => [0, 0, 0]))
+    (.mock 0 1 "b" .ap 7)).map (·.2) = some (.panic "applyerr") := by decide
 
 /-- Reset puts back the saved words — special case kept for reference (builder whose interface mocks all belong to one
     variable's context `c`); the general statement is `reset_restores_all` / `reset_any_order` below: after
@@ -166,10 +186,10 @@ theorem reset_restores_words (s s' : St) (b c v : Nat) (w : Words)
       · rfl
 
 /-- satisfiable and non-trivial: a variable holding implementation 5, two methods mocked (Apply and Return), Reset -/
-example : (run Cfg.fixed (St.init (fun _ => sortMeths ["B", "A"]) (fun _ => 0) (fun _ => .val 5))
-    [.mock 0 0 "A" .ap true, .mock 0 0 "B" .rt true, .reset 0]).map (fun s => (s.vars 0, (s.ctxs 0).canceled)) = some (.val 5, true) := by decide
+example : (run Cfg.fixed (St.init (fun _ => sortMeths ["B", "A"]) (fun _ => 0) (fun _ => .val 5) (fun _ => [0, 0, 0]))
+    [.mock 0 0 "A" .ap 0, .mock 0 0 "B" .rt 0, .reset 0]).map (fun s => (s.vars 0, (s.ctxs 0).canceled)) = some (.val 5, true) := by decide
 
-/-- **Cancel through one method's handle restores the whole variable**: `Method(m).Cancel()` on a method mocker that was
+/-- (function-level restatement of `cancelMM`) **Cancel through one method's handle restores the whole variable**: `Method(m).Cancel()` on a method mocker that was
     applied (has a guard) writes the saved words back, cancels the *shared* context (so the next `Interface(&v)` starts a
     fresh mocker and context, for every method) and touches no other variable; on a mocker that was never applied it
     changes no variable at all. -/
@@ -180,11 +200,12 @@ theorem cancel_one_method_restores_variable (s s' : St) (i v : Nat) (w : Words)
   obtain ⟨_, _, h3, h4, _⟩ := cancelMM_single s s' i _ v w rfl hb hs
   exact ⟨h3, h4⟩
 
-example : (run Cfg.fixed (St.init (fun _ => sortMeths ["B", "A"]) (fun _ => 0) (fun _ => .val 5))
-    [.mock 0 0 "A" .ap true, .mock 0 0 "B" .rt true, .cancelM 0 0 "A", .mock 0 0 "B" .rt true]).map
+example : (run Cfg.fixed (St.init (fun _ => sortMeths ["B", "A"]) (fun _ => 0) (fun _ => .val 5) (fun _ => [0, 0, 0]))
+    [.mock 0 0 "A" .ap 0, .mock 0 0 "B" .rt 0, .cancelM 0 0 "A", .mock 0 0 "B" .rt 0]).map
       (fun s => (callSlot s 0 "A", callSlot s 0 "B", (s.ctxs 0).canceled)) = some (some .notImpl, some (.stub 2), true) := by decide
 
-/-- **the saved words are the value the variable held before the first mock**: `proxy.Interface` (the only writer of the
+/-- (function-level restatement of `proxyInterface`; the state-level statement is `first_mock_backs_up_current_value`)
+    **the saved words are the value the variable held before the first mock**: `proxy.Interface` (the only writer of the
     backup) stores the variable's current words when the context has no backup yet and never overwrites an existing one
     (`BackUpTo` only the first time). -/
 theorem backup_only_first_time (cfg : Cfg) (s s' : St) (v t c : Nat) (m : String) (k : Nat) (cb : Cb)
@@ -195,7 +216,7 @@ theorem backup_only_first_time (cfg : Cfg) (s s' : St) (v t c : Nat) (m : String
   · cases hs
   · split at hs <;> (cases hs; simp only [upd_same]; cases (s.ctxs c).backup <;> rfl)
 
-/-- **a canceled context never reuses its old itab** (kept handles after `Reset`): when `proxy.Interface` runs on a context
+/-- (function-level restatement of `proxyInterface`) **a canceled context never reuses its old itab** (kept handles after `Reset`): when `proxy.Interface` runs on a context
     that was canceled, the variable gets a *fresh* fake interface whose table has the new callback at the method's index
     and `notImplement` in every other slot — no method keeps a replacement from before the `Reset`. -/
 theorem canceled_context_fresh_itab (cfg : Cfg) (s s' : St) (v t c : Nat) (m : String) (k : Nat) (cb : Cb)
@@ -213,11 +234,11 @@ theorem canceled_context_fresh_itab (cfg : Cfg) (s s' : St) (v t c : Nat) (m : S
     the fabricated table, so `proxy.Interface` never leaves the modelled fragment; at the bound (index ≥ `maxMethod`, only
     possible for wider interfaces) the model has no successor state (`none`; the Go code panics with index out of range). -/
 theorem within_bound (cfg : Cfg) (s : St) (v t c : Nat) (m : String) (k : Nat) (cb : Cb) :
-    (m ∈ s.types t → (s.types t).length ≤ maxMethod → (proxyInterface cfg s v t c m k cb).isSome = true)
+    (m ∈ s.types t → NoShadow (s.types t) m → (s.types t).length ≤ maxMethod → (proxyInterface cfg s v t c m k cb).isSome = true)
     ∧ (maxMethod ≤ methodIndexOf (s.types t) m → proxyInterface cfg s v t c m k cb = none) := by
   constructor
-  · intro hm hl
-    have h1 := (slot_is_type_index _ _ hm).2.2
+  · intro hm hns hl
+    have h1 := (slot_is_type_index_partial _ _ hm hns).2.2
     have h2 : (s.types t).idxOf m < (s.types t).length := List.idxOf_lt_length_of_mem hm
     simp only [proxyInterface]
     split
@@ -239,13 +260,13 @@ theorem retained_while_held (s : St) (hr : Reachable s) (v : Nat) : ∀ n ∈ ne
   needed_reachable Cfg.fixed s rfl (reachable_inv hr) v
 
 /-- satisfiable: a reachable state with three live mocks, builder dropped, everything needed is reachable -/
-example : (run Cfg.fixed (St.init (fun _ => sortMeths ["B", "A"]) (fun _ => 0) (fun _ => .val 0))
-    [.mock 0 0 "A" .rt true, .mock 0 0 "B" .rt true, .mock 0 0 "A" .ap true, .drop 0]).map
+example : (run Cfg.fixed (St.init (fun _ => sortMeths ["B", "A"]) (fun _ => 0) (fun _ => .val 0) (fun _ => [0, 0, 0]))
+    [.mock 0 0 "A" .rt 0, .mock 0 0 "B" .rt 0, .mock 0 0 "A" .ap 0, .drop 0]).map
       (fun s => ((needed s 0).length, (needed s 0).all (fun n => (bfs s 64 [.var 0] []).contains n))) = some (3, true) := by decide
 
 theorem reachable_inv2 {s : St} (h : Reachable s) : Inv2 Cfg.fixed s := by
-  obtain ⟨types, vtyp, vars0, ops, hv, hapi, hr⟩ := h
-  exact inv2_run Cfg.fixed ops _ s (inv_init Cfg.fixed types vtyp vars0 hv) (inv2_init Cfg.fixed types vtyp vars0) hapi hr
+  obtain ⟨types, vtyp, vars0, sigs, ops, hv, hapi, hr⟩ := h
+  exact inv2_run Cfg.fixed ops _ s (inv_init Cfg.fixed types vtyp vars0 sigs hv) (inv2_init Cfg.fixed types vtyp vars0 sigs) hapi hr
 
 /-- variable `v` is mocked through builder `b`, with saved words `w`: one of the builder's interface method mockers has a
     guard (a mock was applied through it) and its context backed up `v` holding `w` -/
@@ -339,9 +360,298 @@ theorem reset_order_irrelevant (s s1 s2 : St) (hr : Reachable s) (b : Nat) (l1 l
     builder, a third variable in another builder; a rejected mock and a per-method Cancel in between; `Reset` of builder 0
     restores variables 0 and 1 and leaves builder 1's variable 2 mocked -/
 example : (run Cfg.fixed (St.init (fun _ => sortMeths ["B", "A"]) (fun v => if v = 2 then 1 else 0)
-      (fun v => if v = 1 then .val 5 else .val 0))
-    [.mock 0 0 "A" .ap true, .mock 0 1 "B" .rt true, .mock 1 2 "A" .ap true, .mock 0 1 "A" .ap false,
-     .mock 0 0 "B" .ap true, .cancelM 0 0 "A", .mock 0 0 "B" .rt true, .reset 0]).map
+      (fun v => if v = 1 then .val 5 else .val 0) (fun _ => [0, 0, 0]))
+    [.mock 0 0 "A" .ap 0, .mock 0 1 "B" .rt 0, .mock 1 2 "A" .ap 0, .mock 0 1 "A" .ap 7,
+     .mock 0 0 "B" .ap 0, .cancelM 0 0 "A", .mock 0 0 "B" .rt 0, .reset 0]).map
       (fun s => (s.vars 0, s.vars 1, callSlot s 2 "A")) = some (.val 0, .val 5, some (.stub 2)) := by decide
+
+theorem interfaceOf_reuse (cfg : Cfg) (s : St) (b v j : Nat) (hl : lookup (bkey cfg s v) (s.blds b).mockers = some j)
+    (hlive : (s.ctxs (s.cms j).ctx).canceled = false) : interfaceOf cfg s b v = (j, s) := by
+  simp [interfaceOf, hl, hlive]
+
+/-- **while the context is live the itab is reused** (closes the gap left by the disjunction of `dispatch_frame`): in a
+    reachable state in which variable `v` holds the fake interface `f` of context `c`, `c` is not cancelled and it is the
+    context of the builder's cached mocker for `v`, a further successful mock of `m` through that builder keeps `v`
+    pointing at the SAME fake interface and changes exactly one slot — every other method keeps its slot, hence (by
+    induction over a history without Reset/Cancel) every mocked method keeps its own latest replacement. -/
+theorem dispatch_frame_live (s s' : St) (hr : Reachable s) (b v : Nat) (m : String) (kind : Kind) (csig : Nat)
+    (hns : NoShadow (s.types (s.vtyp v)) m) (hs : step Cfg.fixed s (.mock b v m kind csig) = some (s', .ok))
+    (f c j : Nat) (hv : s.vars v = .fake f c) (hl : lookup (bkey Cfg.fixed s v) (s.blds b).mockers = some j)
+    (hc : (s.cms j).ctx = c) (hlive : (s.ctxs c).canceled = false) :
+    s'.vars v = .fake f c ∧ (s'.fakes f).fn = upd (s.fakes f).fn ((s.types (s.vtyp v)).idxOf m) (.stub s.ncb) := by
+  have hI := reachable_inv hr
+  have hI0 := inv_ncb Cfg.fixed s (s.ncb + 1) hI
+  simp only [step, mockStep] at hs
+  rw [interfaceOf_reuse Cfg.fixed { s with ncb := s.ncb + 1 } b v j hl (by rw [hc]; exact hlive)] at hs
+  simp only at hs
+  obtain ⟨s2, s3, i, hI2, hfit, g1, g2, g3, g4, g5, hmem, g6, g7, g8, g9, g10, g11, hp, he⟩ :=
+    mockOn_ok Cfg.fixed _ s' j m kind _ s.ncb hI0 hs
+  have hj : j < s.ncm := hI.f b _ j hl
+  have hvar : (s.cms j).var = v := hI.h rfl b v j hl
+  have htyp : (s2.cms j).typ = s.vtyp v := by rw [g5]; simp only; rw [(hI.e j hj).2, hvar]
+  have hctx : (s2.cms j).ctx = c := by rw [g3]; exact hc
+  have hcn : (s2.ctxs (s2.cms j).ctx).canceled = false := by rw [hctx, g2]; exact hlive
+  obtain ⟨f', g, o1, o2, o3, o4, o5, o6, o7⟩ := proxyInterface_out Cfg.fixed s2 s3 _ _ _ m _ _ hcn hp
+  have hlk : lookup (s.vtyp v) (s.ctxs c).cache = some f := (hI.a v f c hv).2
+  have hmem' : m ∈ s.types (s.vtyp v) := by
+    rw [htyp, g9] at hmem; exact hasMethod_mem _ _ hmem hns
+  have hf : f' = f ∧ g = (s.fakes f).fn := by
+    rcases o3 with ⟨_, _, h3⟩ | ⟨h1, h2⟩
+    · rw [htyp, hctx, g2] at h3; simp only at h3; rw [hlk] at h3; cases h3
+    · rw [htyp, hctx, g2] at h1; simp only at h1; rw [hlk] at h1; cases h1
+      exact ⟨rfl, by rw [h2, g7]⟩
+  obtain ⟨e1, e2⟩ := hf
+  subst e1
+  subst he
+  constructor
+  · simp only; rw [o1, g4]; simp only; rw [hvar, hctx]; exact upd_same _ _ _
+  · simp only; rw [o2, upd_same, e2, htyp, g9]; simp only
+    rw [methodIndexOf_eq_idxOf _ _ hmem' hns]
+
+
+theorem interfaceOf_lookup (cfg : Cfg) (s : St) (b v : Nat) :
+    lookup (bkey cfg s v) ((interfaceOf cfg s b v).2.blds b).mockers = some (interfaceOf cfg s b v).1 := by
+  simp only [interfaceOf]
+  split
+  · rename_i j hj
+    split
+    · simp [freshCM, lookup_insertKV]
+    · exact hj
+  · simp [freshCM, lookup_insertKV]
+
+theorem proxyInterface_frame (cfg : Cfg) (s s' : St) (v t c : Nat) (m : String) (k : Nat) (cb : Cb)
+    (hs : proxyInterface cfg s v t c m k cb = some s') :
+    s'.blds = s.blds ∧ s'.cms = s.cms ∧ s'.ncb = s.ncb ∧ (s'.ctxs c).canceled = (s.ctxs c).canceled := by
+  simp only [proxyInterface] at hs
+  split at hs
+  · cases hs
+  · split at hs <;> (cases hs; simp)
+
+theorem methodOf_frame (s : St) (j : Nat) (m : String) :
+    (methodOf s j m).2.blds = s.blds ∧ (methodOf s j m).2.ncb = s.ncb ∧ (∀ j', ((methodOf s j m).2.cms j').ctx = (s.cms j').ctx) := by
+  simp only [methodOf]
+  split
+  · split
+    · refine ⟨rfl, rfl, fun j' => ?_⟩
+      by_cases e : j' = j
+      · subst e; simp [freshMM]
+      · simp [freshMM, upd_other _ _ _ _ e]
+    · exact ⟨rfl, rfl, fun _ => rfl⟩
+  · refine ⟨rfl, rfl, fun j' => ?_⟩
+    by_cases e : j' = j
+    · subst e; simp [freshMM]
+    · simp [freshMM, upd_other _ _ _ _ e]
+
+theorem mockOn_frame (cfg : Cfg) (s1 s' : St) (j : Nat) (m : String) (kind : Kind) (fits : Bool) (k : Nat)
+    (hs : mockOn cfg s1 j m kind fits k = some (s', .ok)) :
+    s'.blds = s1.blds ∧ s'.ncb = s1.ncb ∧ (∀ j', (s'.cms j').ctx = (s1.cms j').ctx) := by
+  have mf := methodOf_frame s1 j m
+  simp only [mockOn] at hs
+  split at hs
+  · cases hs
+  split at hs
+  · cases hs
+  generalize methodOf s1 j m = r2 at hs mf
+  obtain ⟨i, s2⟩ := r2
+  simp only at hs mf
+  obtain ⟨m1, m2, m3⟩ := mf
+  have fin : ∀ (cb : Cb) (s3 : St) (f : Nat → MM), proxyInterface cfg s2 (s1.cms j).var (s1.cms j).typ (s1.cms j).ctx m k cb = some s3 →
+      ({ s3 with mms := f } : St).blds = s1.blds ∧ ({ s3 with mms := f } : St).ncb = s1.ncb
+        ∧ (∀ j', (({ s3 with mms := f } : St).cms j').ctx = (s1.cms j').ctx) := by
+    intro cb s3 f hq
+    obtain ⟨p1, p2, p3, _⟩ := proxyInterface_frame cfg s2 s3 _ _ _ m _ _ hq
+    exact ⟨by simp only; rw [p1, m1], by simp only; rw [p3, m2], fun j' => by simp only; rw [p2]; exact m3 j'⟩
+  cases kind with
+  | ap =>
+    simp only at hs
+    split at hs
+    · cases hs
+    cases hq : proxyInterface cfg s2 (s1.cms j).var (s1.cms j).typ (s1.cms j).ctx m k .clo with
+    | none => simp [hq] at hs
+    | some s3 =>
+      simp only [hq, Option.map_some, Option.some.injEq, Prod.mk.injEq, and_true] at hs
+      subst hs; exact fin _ s3 _ hq
+  | rt =>
+    simp only at hs
+    split at hs
+    · cases hs
+    split at hs
+    · cases hs
+    cases hq : proxyInterface cfg s2 (s1.cms j).var (s1.cms j).typ (s1.cms j).ctx m k (.mk i) with
+    | none => simp [hq] at hs
+    | some s3 =>
+      simp only [hq, Option.map_some, Option.some.injEq, Prod.mk.injEq, and_true] at hs
+      subst hs; exact fin _ s3 _ hq
+  | wn a =>
+    simp only at hs
+    split at hs
+    · cases hs
+    split at hs
+    · cases hs
+    cases hq : proxyInterface cfg s2 (s1.cms j).var (s1.cms j).typ (s1.cms j).ctx m k (.mk i) with
+    | none => simp [hq] at hs
+    | some s3 =>
+      simp only [hq, Option.map_some, Option.some.injEq, Prod.mk.injEq, and_true] at hs
+      subst hs; exact fin _ s3 _ hq
+
+/-- after a successful mock the builder's cached mocker for `v` exists, its context is live and `v` holds its fake -/
+theorem mock_establishes_live (s s' : St) (hr : Reachable s) (b v : Nat) (m : String) (kind : Kind) (csig : Nat)
+    (hs : step Cfg.fixed s (.mock b v m kind csig) = some (s', .ok)) :
+    ∃ f c j, s'.vars v = .fake f c ∧ lookup (bkey Cfg.fixed s' v) (s'.blds b).mockers = some j ∧ (s'.cms j).ctx = c
+      ∧ (s'.ctxs c).canceled = false ∧ s'.ncb = s.ncb + 1 ∧ s'.types = s.types ∧ s'.vtyp = s.vtyp := by
+  have hI := reachable_inv hr
+  have hI0 := inv_ncb Cfg.fixed s (s.ncb + 1) hI
+  have f1 := interfaceOf_facts Cfg.fixed _ b v hI0
+  have hI1 := inv_interfaceOf Cfg.fixed _ b v hI0
+  have hlk := interfaceOf_lookup Cfg.fixed { s with ncb := s.ncb + 1 } b v
+  simp only [step, mockStep] at hs
+  generalize interfaceOf Cfg.fixed { s with ncb := s.ncb + 1 } b v = r1 at hs f1 hI1 hlk
+  obtain ⟨j, s1⟩ := r1
+  simp only at hs f1 hI1 hlk
+  obtain ⟨f1a, f1b, f1c, f1d, f1e, f1f, f1g, f1h, f1i, f1j⟩ := f1
+  obtain ⟨s2, s3, i, hI2, hfit, g1, g2, g3, g4, g5, hmem, g6, g7, g8, g9, g10, g11, hp, he⟩ :=
+    mockOn_ok Cfg.fixed s1 s' j m kind _ s.ncb hI1 hs
+  have mf := methodOf_facts s1 j m
+  have hcn : (s2.ctxs (s2.cms j).ctx).canceled = false := by rw [g2, g3]; exact f1b
+  obtain ⟨f', g, o1, o2, o3, o4, o5, o6, o7⟩ := proxyInterface_out Cfg.fixed s2 s3 _ _ _ m _ _ hcn hp
+  obtain ⟨p1, p2, p3, p4⟩ := proxyInterface_frame Cfg.fixed s2 s3 _ _ _ m _ _ hp
+  have hv : (s2.cms j).var = v := by rw [g4]; exact f1c rfl
+  obtain ⟨q1, q2, q3⟩ := mockOn_frame Cfg.fixed s1 s' j m kind _ s.ncb hs
+  have hc3 : (s3.ctxs (s2.cms j).ctx).canceled = false := by rw [p4]; exact hcn
+  subst he
+  refine ⟨f', (s2.cms j).ctx, j, ?_, ?_, ?_, ?_, ?_, ?_, ?_⟩
+  · simp only; rw [o1, hv]; exact upd_same _ _ _
+  · have e1 : s3.blds = s1.blds := q1
+    have e2 : s3.vtyp = s.vtyp := by rw [o6, g10, f1h]
+    have e3 : s1.vtyp = s.vtyp := f1h
+    simp only [bkey] at hlk ⊢
+    rw [e1, e2]; exact hlk
+  · simp only; rw [p2]
+  · exact hc3
+  · have : s3.ncb = s1.ncb := q2
+    simp only; rw [this, f1j]
+  · simp only; rw [o5, g9, f1g]
+  · simp only; rw [o6, g10, f1h]
+
+
+theorem run_append (cfg : Cfg) (l1 l2 : List Op) : ∀ s, run cfg s (l1 ++ l2) = (run cfg s l1).bind fun s1 => run cfg s1 l2 := by
+  induction l1 with
+  | nil => intro s; simp [run]
+  | cons op r ih =>
+    intro s
+    simp only [List.cons_append, run]
+    cases step cfg s op with
+    | none => simp
+    | some p => simp [ih]
+
+/-- reachable states are closed under builder-API steps -/
+theorem reachable_step {s s1 : St} {op : Op} {st : Status} (hr : Reachable s) (hapi : op.builderApi = true)
+    (hs : step Cfg.fixed s op = some (s1, st)) : Reachable s1 := by
+  obtain ⟨types, vtyp, vars0, sigs, ops, hv, ha, hrun⟩ := hr
+  refine ⟨types, vtyp, vars0, sigs, ops ++ [op], hv, ?_, ?_⟩
+  · intro o ho
+    rcases List.mem_append.mp ho with h | h
+    · exact ha o h
+    · simp at h; subst h; exact hapi
+  · rw [run_append, hrun]; simp [run, hs]
+
+/-- a history in which every step succeeds (status ok) -/
+def runOk (cfg : Cfg) : St → List Op → Option St
+  | s, [] => some s
+  | s, op :: r => match step cfg s op with
+    | some (s1, .ok) => runOk cfg s1 r
+    | _ => none
+
+/-- the slot table the property prescribes after mocking the methods `l` (in this order, callback ids counted from `k0`)
+    on top of table `g`: each method's slot is its own LATEST replacement, every other slot is untouched -/
+def specSlots (ms : List String) : List (String × Kind × Nat) → Nat → (Nat → Slot) → (Nat → Slot)
+  | [], _, g => g
+  | p :: r, k0, g => specSlots ms r (k0 + 1) (upd g (ms.idxOf p.1) (.stub k0))
+
+/-- **trace-level dispatch theorem — any order, any subset, any number of re-mocks.**  From a reachable state in which `v`
+    holds the fake interface of the live context of builder `b`'s mocker, after ANY sequence of successful mocks of `v`
+    through `b` (Apply / Return / When, methods in any order, repeated or not) the variable still holds the same fake
+    interface and its function table is exactly the table the property prescribes: every mocked method dispatches to its own
+    latest replacement, every other slot is what it was (`notImplement` if the method was never mocked in this context). -/
+theorem mock_sequence_slots (b v : Nat) (l : List (String × Kind × Nat)) : ∀ (s s' : St), Reachable s →
+    (∀ p ∈ l, NoShadow (s.types (s.vtyp v)) p.1) →
+    ∀ f c j, s.vars v = .fake f c → lookup (bkey Cfg.fixed s v) (s.blds b).mockers = some j → (s.cms j).ctx = c →
+    (s.ctxs c).canceled = false →
+    runOk Cfg.fixed s (l.map fun p => Op.mock b v p.1 p.2.1 p.2.2) = some s' →
+    s'.vars v = .fake f c ∧ (s'.fakes f).fn = specSlots (s.types (s.vtyp v)) l s.ncb (s.fakes f).fn := by
+  induction l with
+  | nil =>
+    intro s s' _ _ f c j hv _ _ _ hs
+    simp only [List.map_nil, runOk, Option.some.injEq] at hs
+    subst hs
+    exact ⟨hv, rfl⟩
+  | cons p r ih =>
+    intro s s' hr hns f c j hv hl hc hlive hs
+    simp only [List.map_cons, runOk] at hs
+    cases hq : step Cfg.fixed s (.mock b v p.1 p.2.1 p.2.2) with
+    | none => simp [hq] at hs
+    | some q =>
+      obtain ⟨s1, st⟩ := q
+      cases st with
+      | panic c' => simp [hq] at hs
+      | ok =>
+        simp only [hq] at hs
+        have hns0 := hns p List.mem_cons_self
+        obtain ⟨h1, h2⟩ := dispatch_frame_live s s1 hr b v p.1 p.2.1 p.2.2 hns0 hq f c j hv hl hc hlive
+        obtain ⟨f', c', j', e1, e2, e3, e4, e5, e6, e7⟩ := mock_establishes_live s s1 hr b v p.1 p.2.1 p.2.2 hq
+        rw [h1] at e1
+        cases e1
+        have hr1 : Reachable s1 := reachable_step hr rfl hq
+        have hns1 : ∀ p' ∈ r, NoShadow (s1.types (s1.vtyp v)) p'.1 := by
+          intro p' hp'; rw [e6, e7]; exact hns p' (List.mem_cons_of_mem _ hp')
+        obtain ⟨r1, r2⟩ := ih s1 s' hr1 hns1 f c j' h1 e2 e3 e4 hs
+        refine ⟨r1, ?_⟩
+        rw [r2, e6, e7, e5, h2]
+        rfl
+
+/-- non-vacuous: B, A again, B again (Return, When, Apply) on a two-method interface after a first mock of A -/
+example : (runOk Cfg.fixed (St.init (fun _ => sortMeths ["B", "A"]) (fun _ => 0) (fun _ => .val 0) (fun _ => [0, 0]))
+    [.mock 0 0 "A" .ap 0, .mock 0 0 "B" .rt 0, .mock 0 0 "A" (.wn 3) 0, .mock 0 0 "B" .ap 0]).map
+      (fun s => (callSlot s 0 "A", callSlot s 0 "B")) = some (some (.stub 2), some (.stub 3)) := by decide
+
+/-- **the backup is the value the variable holds when its mocking round starts** (state-level, over reachable states):
+    when builder `b` has no mocker for `v` yet, or only a cancelled one (after `Reset` / `Cancel`), a successful mock
+    starts a fresh context whose backup is exactly `v`'s current words — the value `reset_restores_all` later puts back
+    (`backup_only_first_time`: no later mock of the round overwrites it). -/
+theorem first_mock_backs_up_current_value (s s' : St) (hr : Reachable s) (b v : Nat) (m : String) (kind : Kind) (csig : Nat)
+    (hfirst : ∀ j, lookup (bkey Cfg.fixed s v) (s.blds b).mockers = some j → (s.ctxs (s.cms j).ctx).canceled = true)
+    (hs : step Cfg.fixed s (.mock b v m kind csig) = some (s', .ok)) :
+    ∃ f, s'.vars v = .fake f s.nctx ∧ (s'.ctxs s.nctx).backup = some (v, s.vars v) ∧ (s'.ctxs s.nctx).canceled = false := by
+  have hI := reachable_inv hr
+  have hI0 := inv_ncb Cfg.fixed s (s.ncb + 1) hI
+  have hfresh : interfaceOf Cfg.fixed { s with ncb := s.ncb + 1 } b v = freshCM Cfg.fixed { s with ncb := s.ncb + 1 } b v := by
+    simp only [interfaceOf]
+    split
+    · rename_i j hj
+      have := hfirst j hj
+      simp [this]
+    · rfl
+  simp only [step, mockStep] at hs
+  rw [hfresh] at hs
+  have hI1 := inv_freshCM Cfg.fixed { s with ncb := s.ncb + 1 } b v hI0
+  simp only [freshCM] at hs hI1
+  obtain ⟨s2, s3, i, hI2, hfit, g1, g2, g3, g4, g5, hmem, g6, g7, g8, g9, g10, g11, hp, he⟩ :=
+    mockOn_ok Cfg.fixed _ s' s.ncm m kind _ s.ncb hI1 hs
+  simp only [upd_same] at g3 g4 g5
+  have hbk := backup_only_first_time Cfg.fixed s2 s3 _ _ _ m _ _ hp
+  obtain ⟨p1, p2, p3, p4⟩ := proxyInterface_frame Cfg.fixed s2 s3 _ _ _ m _ _ hp
+  have hcn : (s2.ctxs (s2.cms s.ncm).ctx).canceled = false := by rw [g2, g3]; simp
+  obtain ⟨f', g, o1, o2, o3, o4, o5, o6, o7⟩ := proxyInterface_out Cfg.fixed s2 s3 _ _ _ m _ _ hcn hp
+  rw [g3, g4] at hbk o1
+  rw [g3] at p4 hcn
+  have hb0 : (s2.ctxs s.nctx).backup = none := by rw [g2]; simp
+  rw [hb0, g6] at hbk
+  subst he
+  exact ⟨f', by simp only; rw [o1]; exact upd_same _ _ _, by simp only; exact hbk, by simp only; rw [p4]; exact hcn⟩
+
+/-- non-vacuous: second round after a Reset and an assignment backs up the assigned value -/
+example : (run Cfg.fixed (St.init (fun _ => sortMeths ["B", "A"]) (fun _ => 0) (fun _ => .val 0) (fun _ => [0, 0]))
+    [.mock 0 0 "A" .ap 0, .reset 0, .assign 0 5, .mock 0 0 "B" .rt 0, .reset 0]).map (fun s => s.vars 0) = some (.val 5) := by
+  decide
 
 end C07
